@@ -385,6 +385,14 @@ def rule_invented_names_are_order_free(repo: Repo, rep, rule: str = "R19.9") -> 
             else:
                 rep.ok(rule, sub, "the base of the invented name comes from the enclosing named context", fn.loc(w))
     rep.require(n >= 1, f"{rule}: no name-counting loop over parsed_schemas found in schema_parser (anchor)")
+    # the same for names that collide with a name made up for another node: the second one in document order gets the number
+    for q, fn in sp.functions.items():
+        for w in [x for x in own_nodes(fn.node) if isinstance(x, ast.While)]:
+            if any(isinstance(a, ast.Attribute) and a.attr.startswith("invented_") for a in ast.walk(w.test)) and any(
+                    isinstance(st, ast.AugAssign) or (isinstance(st, ast.Assign) and isinstance(st.value, ast.JoinedStr)) for st in ast.walk(w)):
+                rep.violation(rule, f"{sp.relpath}:{q} number given to the second of two inline schemas with one made-up name", f"{fn.fq}|colliding-made-up-names-numbered-in-encounter-order",
+                              "two different inline schemas whose made-up names coincide (`Cat.details` / `Dog.details` below anonymous allOf members) are told apart by a number given in "
+                              "document order: reordering `components.schemas` swaps which of the two is `Details` and which `Details2` (the fields stay with the right property)", fn.loc(w))
 
 
 # ------------------------------------------------------------------------------------------------ R19.10 sibling properties get different invented names
